@@ -105,9 +105,9 @@ Proof.
     destruct (py_parts e) as [|p0 t] eqn:Ep.
     + left. cbn [snd]. intros pid [].
     + destruct expected as [ex|]; [|left; cbn [snd]; intros pid []].
-      destruct (negb (amt =? ex)); [left; cbn [snd]; intros pid []|].
-      destruct valid.
+      destruct (valid && (amt =? ex)) eqn:Ev.
       * right. exists e. split; [reflexivity|]. cbn [snd]. rewrite Ep.
+        apply andb_true_iff in Ev as [Ev _]. subst valid.
         destruct Hamt as [->|Hv]; [reflexivity|discriminate].
       * left. cbn [snd]. intros pid Hin. apply in_map_iff in Hin as [p [Hp _]]. discriminate.
 Qed.
@@ -285,8 +285,8 @@ Proof.
     + nofp Hin.
     + destruct (claim_scan (py_parts e) None 0) as [[valid expected] amt].
       destruct (py_parts e) as [|p0 t]; [destruct Hin|].
-      destruct expected; [|destruct Hin]. destruct (negb (amt =? z)); [destruct Hin|].
-      destruct valid; cbn [snd] in Hin.
+      destruct expected; [|destruct Hin].
+      destruct (valid && (amt =? z)); cbn [snd] in Hin.
       * nofp Hin.
       * nofp Hin.
   - exfalso. cbn [step] in Hin. unfold fail_back in Hin. destruct (get fh (claimable s)); [|destruct Hin].
@@ -407,8 +407,7 @@ Proof.
     destruct (claim_scan (py_parts e0) None 0) as [[valid expected] amt].
     destruct (py_parts e0); [exists e; split; [exact Hd|apply same_core_refl]|].
     destruct expected; [|exists e; split; [exact Hd|apply same_core_refl]].
-    destruct (negb (amt =? z)); [exists e; split; [exact Hd|apply same_core_refl]|].
-    destruct valid; exists e; (split; [exact Hd|apply same_core_refl]).
+    destruct (valid && (amt =? z)); exists e; (split; [exact Hd|apply same_core_refl]).
   - cbn [quiet_for] in Hq. apply negb_true_iff, Z.eqb_neq in Hq. unfold fail_back.
     destruct (get fh (claimable s)) as [e0|]; [|exists e; split; [exact Hg|apply same_core_refl]].
     exists e. cbn [fst claimable]. rewrite get_del_neq by congruence. split; [exact Hg|apply same_core_refl].
@@ -503,8 +502,44 @@ Proof.
   - destruct Hc' as (_ & Hf & _). rewrite <- Hf. exact Hk.
 Qed.
 
-(** * H2: a late claim on a partially timed-out MPP drops the surviving parts
-      (a faithful consequence of [claim_payment_internal]'s amount re-check) *)
+(** * a late claim never drops parts (H2 of DESIGN.md section 11, fixed in claim_payment_internal)
+
+    Whatever the height: when every part of the set records a received total (i.e. PaymentClaimable
+    was generated for the set), [claim_funds] either releases the preimage on every part or fails
+    every part back. In particular a claim after the part with the least expiry was failed at the
+    deadline fails the surviving parts back instead of forgetting them. *)
+Lemma claim_scan_expected : forall parts exp acc v ex am,
+  claim_scan parts exp acc = (v, ex, am) ->
+  (forall p, In p parts -> pt_tvr p <> None) ->
+  (exp <> None \/ parts <> []) -> ex <> None.
+Proof.
+  induction parts as [|p t IH]; intros exp acc v ex am H Hall Hne; cbn [claim_scan] in H.
+  - injection H as _ <- _. destruct Hne as [Hne|Hne]; [exact Hne|contradiction].
+  - destruct (match exp with Some _ => _ | None => false end) eqn:Ec.
+    + injection H as _ <- _. destruct exp; [discriminate|discriminate].
+    + apply (IH _ _ _ _ _ H); [intros q Hq; apply Hall; right; exact Hq|].
+      left. apply Hall. left. reflexivity.
+Qed.
+
+Lemma claim_never_drops s hash known e :
+  get hash (claimable s) = Some e -> py_parts e <> [] ->
+  (forall p, In p (py_parts e) -> pt_tvr p <> None) ->
+  let outs := snd (step s (Claim hash known)) in
+  (forall p, In p (py_parts e) -> In (OFulfill (pt_id p)) outs) \/
+  (forall p, In p (py_parts e) -> exists r, In (OFailPart (pt_id p) r) outs).
+Proof.
+  intros Hg Hne Hall. cbn [step]. unfold claim. rewrite Hg.
+  destruct (negb known && negb match f_even (py_fields e) with [] => true | _ => false end).
+  - right. intros p Hp. eexists. cbn [snd]. apply in_map_iff. exists p. split; [reflexivity|exact Hp].
+  - destruct (claim_scan (py_parts e) None 0) as [[valid expected] amt] eqn:Es.
+    pose proof (claim_scan_expected _ _ _ _ _ _ Es Hall (or_intror Hne)) as Hex.
+    destruct (py_parts e) as [|p0 t] eqn:Ep; [contradiction|].
+    destruct expected as [ex|]; [|contradiction].
+    destruct (valid && (amt =? ex)); cbn [snd].
+    + left. intros p Hp. right. apply in_map_iff. exists p. split; [reflexivity|exact Hp].
+    + right. intros p Hp. eexists. apply in_map_iff. exists p. split; [reflexivity|exact Hp].
+Qed.
+
 Definition h2_fields : fields := {| f_secret := 7; f_total := 3000; f_meta := -1; f_even := [] |}.
 Definition h2_ops : list op :=
   [ Recv 1 11 200 200 1000 1000 h2_fields 9 true None;     (* part A, cltv 200 *)
@@ -512,8 +547,9 @@ Definition h2_ops : list op :=
     Block (200 - HTLC_FAIL_BACK_BUFFER);                    (* the deadline: part A is failed back *)
     Claim 1 false ].                                        (* the user claims late *)
 
-Lemma late_claim_drops_parts :
+Lemma late_claim_fails_back_example :
   snd (run (init 100) h2_ops) =
-    [ []; [OClaimable 1 3000 (200 - HTLC_FAIL_BACK_BUFFER)]; [OFailPart 11 F_PaymentClaimBuffer]; [] ] /\
+    [ []; [OClaimable 1 3000 (200 - HTLC_FAIL_BACK_BUFFER)]; [OFailPart 11 F_PaymentClaimBuffer];
+      [OFailPart 12 F_IncorrectPaymentDetails] ] /\
   claimable (fst (run (init 100) h2_ops)) = [].
 Proof. vm_compute. split; reflexivity. Qed.
